@@ -993,3 +993,7 @@ mod test {
         // reader.clone();
     }
 }
+
+#[cfg(multiqueue2_verif)]
+#[path = "verif_hooks/mpmc_access.rs"]
+pub mod verif_access;
